@@ -163,6 +163,9 @@ class C08(EngineProp):
             count = rng.choice([1, 2, 4])
             out.append({'role': 'server', 'profile': 'source', 'kind': 'source', 'src': SRC.KINDS[i % len(SRC.KINDS)], 'count': count, 'flagged': rng.random() < 0.6,
                         'failing': rng.random() < 0.6, 'n0': rng.choice([1, count, count + 3, 2 ** 31 - 1]), 'more': rng.choice([0, 2, 5]), 'channel': rng.random() < 0.3})
+        for i in range(30 if tier == 'quick' else 600):
+            out.append({'role': 'client', 'profile': 'latepub', 'kind': 'latepub', 'ticks': rng.choice([0, 1, 1, 3]), 'count': rng.choice([0, 1, 2, 5]),
+                        'end': rng.choice(['flag', 'complete', 'none']), 'grants': [rng.choice([1, 2, 5]) for _ in range(rng.randint(1, 3))]})
         # reconnects: a new connection carries only streams it opened itself; what is left over from the previous connection (publishers of
         # its channels, its requesters) must have been shut down and must not emit frames with the old stream ids on the new connection
         for _ in range(60 if tier == 'quick' else 1500):
@@ -191,6 +194,9 @@ class C08(EngineProp):
         if case.get('kind') == 'source':
             from harness import detloop
             return detloop.run(self._source, case)
+        if case.get('kind') == 'latepub':
+            from harness import detloop
+            return detloop.run(self._latepub, case)
         return super().run_impl(case)
 
     async def _source(self, loop, case):
@@ -269,6 +275,70 @@ class C08(EngineProp):
                 steps.append([recv_token(spec, 'k'), [frame_token(x[2]) for x in t.sent[n0:]]])
         if not task.done():
             task.cancel()
+        try:
+            await c.close()
+        except Exception:
+            pass
+        return {'steps': steps, 'final': {'table': [], 'cache': []}, 'script': [], 'extra': None, 'kinds': [], 'sids': []}
+
+    async def _latepub(self, loop, case):
+        # a channel requester whose application publisher signals on_subscribe later than inside subscribe() (reactive-streams allows it)
+        import asyncio
+        from harness import clientrun
+        from harness.engine import frame_token, recv_token, build_frame
+        from rsocket.payload import Payload
+        from rsocket import frame as F
+        from reactivestreams.publisher import Publisher
+        from reactivestreams.subscription import Subscription
+        from reactivestreams.subscriber import DefaultSubscriber
+        R = clientrun.ClientRun(loop, n_transports=1, ka_ms=10_000_000, life_ms=100_000_000)
+        c = R.build()
+        await c.connect()
+        await loop.settle()
+        t = R.transports[0]
+        base = len(t.sent)
+
+        class Late(Publisher, Subscription):
+            def __init__(self):
+                self.sub, self.left, self.cancelled, self.done = None, case['count'], False, False
+
+            def subscribe(self, subscriber):
+                self.sub = subscriber
+
+                async def later():
+                    for _ in range(case['ticks']):
+                        await asyncio.sleep(0)
+                    subscriber.on_subscribe(self)
+                if case['ticks']:
+                    asyncio.ensure_future(later())
+                else:
+                    subscriber.on_subscribe(self)
+
+            def request(self, n):
+                while n > 0 and self.left > 0 and not self.cancelled:
+                    self.left -= 1
+                    n -= 1
+                    last = self.left == 0 and case['end'] == 'flag'
+                    self.sub.on_next(Payload(b'e%d' % self.left), last)
+                    self.done = self.done or last
+                if self.left == 0 and not self.done and not self.cancelled and case['end'] == 'complete':
+                    self.done = True
+                    self.sub.on_complete()
+
+            def cancel(self):
+                self.cancelled = True
+        c.request_channel(Payload(b'q'), Late()).initial_request_n(3).subscribe(DefaultSubscriber())
+        await loop.settle()
+        steps = [['REQUEST', [frame_token(e[2]) for e in t.sent[base:]]]]
+        req = [e[2] for e in t.sent[base:] if isinstance(e[2], F.RequestChannelFrame)]
+        if req:
+            sid = req[0].stream_id
+            for n in case['grants']:
+                n0 = len(t.sent)
+                spec = {'ty': 'REQUEST_N', 'sid': sid, 'n': n}
+                t.deliver(build_frame(spec).serialize())
+                await loop.settle()
+                steps.append([recv_token(spec, 'k'), [frame_token(x[2]) for x in t.sent[n0:]]])
         try:
             await c.close()
         except Exception:
@@ -449,7 +519,7 @@ class C08(EngineProp):
     def model_lines(self, case, obs):
         if case.get('kind') == 'source':
             return [self._source_line(case)]
-        if case.get('kind') in ('lease', 'setup-order', 'reconnect', 'collector', 'source'):
+        if case.get('kind') in ('lease', 'setup-order', 'reconnect', 'collector', 'source', 'latepub'):
             return []
         return super().model_lines(case, obs)
 
@@ -467,7 +537,7 @@ class C08(EngineProp):
                 impl.append('%d%s' % (n, term))
             model = answers[0].split(' ')
             return None if impl == model else 'elements and terminal signal on the wire after each grant: impl %s / model %s (%s)' % (impl, model, self._source_line(case))
-        if case.get('kind') in ('lease', 'setup-order', 'reconnect', 'collector', 'source'):
+        if case.get('kind') in ('lease', 'setup-order', 'reconnect', 'collector', 'source', 'latepub'):
             return None
         return super().compare(case, obs, answers)
 
@@ -479,7 +549,7 @@ class C08(EngineProp):
                 if len(case['kinds']) > 1:
                     yield dict(case, kinds=case['kinds'][:i] + case['kinds'][i + 1:], acts=case['acts'][:i] + case['acts'][i + 1:] + ['none'])
             return
-        if case.get('kind') in ('collector', 'source'):
+        if case.get('kind') in ('collector', 'source', 'latepub'):
             return
         if case.get('kind') == 'reconnect':
             if case['rounds'] > 1:
@@ -496,7 +566,7 @@ class C08(EngineProp):
         if case.get('kind') == 'setup-order':
             import json
             return json.dumps(case['c16'], sort_keys=True)
-        if case.get('kind') in ('lease', 'reconnect', 'collector', 'source'):
+        if case.get('kind') in ('lease', 'reconnect', 'collector', 'source', 'latepub'):
             import json
             return json.dumps(case, sort_keys=True) if any(toks for _, toks in obs['steps']) else None
         return super().nontrivial(case, obs)
@@ -505,7 +575,7 @@ class C08(EngineProp):
         if case.get('kind') == 'setup-order':
             yield 'kind=setup-order'
             return
-        if case.get('kind') in ('collector', 'source'):
+        if case.get('kind') in ('collector', 'source', 'latepub'):
             yield 'kind=' + case['kind']
             return
         if case.get('kind') == 'reconnect':
